@@ -153,10 +153,13 @@ theorem C20_disabled_no_validator (cls : Cls) (f : Field) :
     (assignPlan cls false f).filter isValidator = [] ∧
     validatePlan cls false = [] := by
   refine ⟨?_, ?_, rfl⟩
-  · apply filter_all_false
+  · rw [constructPlan_struct]
+    apply filter_all_false
     intro e he
-    have : e ∈ convPlan cls.fields := by simpa [constructPlan] using he
-    simp [isValidator, convPlan_kind _ e this]
+    simp only [Bool.false_eq_true, if_false, List.append_nil, List.mem_append] at he
+    rcases he with he | he
+    · rcases beforePart_kind cls e he with h | h | h <;> simp [isValidator, h]
+    · simp [isValidator, afterPart_kind cls e he]
   · unfold assignPlan
     generalize hooked cls f = l
     generalize 0 = pos
@@ -175,22 +178,68 @@ theorem C20_switch_independence (cls : Cls) (f : Field) :
     constructPlan cls false = (constructPlan cls true).filter (fun e => !isValidator e) ∧
     assignPlan cls false f = (assignPlan cls true f).filter (fun e => !isValidator e) := by
   refine ⟨?_, chainPlan_switch f _ 0⟩
-  simp only [constructPlan, Bool.false_eq_true, if_false, if_true, List.append_nil, List.filter_append]
-  rw [filter_all_true _ _ (fun e he => by simp [isValidator, convPlan_kind _ e he]),
-      filter_all_false _ _ (fun e he => by simp [isValidator, validatorPlan_kind _ e he])]
+  rw [constructPlan_struct, constructPlan_struct]
+  simp only [Bool.false_eq_true, if_false, if_true, List.append_nil, List.filter_append]
+  rw [filter_all_true _ (beforePart cls) (fun e he => by
+        rcases beforePart_kind cls e he with h | h | h <;> simp [isValidator, h]),
+      filter_all_true _ (afterPart cls) (fun e he => by simp [isValidator, afterPart_kind cls e he]),
+      filter_all_false _ (validatorPlan cls.fields) (fun e he => by simp [isValidator, validatorPlan_kind _ e he])]
   simp
+
+/-- **C20_hooks_unaffected**: whatever the switch says, the non-validator callbacks of a construction are the
+    same list: `__attrs_pre_init__`, per field its factory and converter, and `__attrs_post_init__` after
+    them — the switch gates the validators only (they sit between the converters and the post-init hook). -/
+theorem C20_hooks_unaffected (cls : Cls) (run : Bool) :
+    (constructPlan cls run).filter (fun e => !isValidator e) = beforePart cls ++ afterPart cls ∧
+    (cls.post = true → (constructPlan cls run).getLast? = some { kind := "post", field := "", idx := 0 }) ∧
+    (cls.pre ≠ .none → (constructPlan cls run).head? = some { kind := "pre", field := "", idx := 0 }) := by
+  refine ⟨?_, ?_, ?_⟩
+  · rw [constructPlan_struct]
+    simp only [List.filter_append]
+    rw [filter_all_true _ (beforePart cls) (fun e he => by
+          rcases beforePart_kind cls e he with h | h | h <;> simp [isValidator, h]),
+        filter_all_true _ (afterPart cls) (fun e he => by simp [isValidator, afterPart_kind cls e he])]
+    cases run
+    · simp
+    · rw [if_pos rfl, filter_all_false _ (validatorPlan cls.fields)
+        (fun e he => by simp [isValidator, validatorPlan_kind _ e he])]
+      simp
+  · intro hp
+    rw [constructPlan_struct]
+    simp [afterPart, hp]
+  · intro hp
+    rw [constructPlan_struct]
+    unfold beforePart C02.preEvents
+    have : (initCase cls true none).eff.cfg.pre = cls.pre := rfl
+    rw [this]
+    cases h : cls.pre with
+    | none => exact absurd h hp
+    | noArgs => simp [C02.ev]
+    | withArgs => simp [C02.ev]
+
+/-- **C20_construct_callbacks**: for a class with distinct field names, everything a construction calls, in
+    order: `__attrs_pre_init__` if the class has one; per field its factory (the argument was left out) and its
+    converter; every validator of every field iff validators are enabled; `__attrs_post_init__` if the class has
+    one.  Only the third group depends on the switch. -/
+theorem C20_construct_callbacks (cls : Cls) (run : Bool) (hn : (cls.fields.map (·.name)).Nodup) :
+    constructPlan cls run =
+      (if cls.pre = .none then [] else [preId]) ++
+      cls.fields.flatMap (fun f => (if f.factory then [factoryId f] else []) ++ (if f.conv then [convId f] else [])) ++
+      (if run then validatorPlan cls.fields else []) ++
+      (if cls.post then [{ kind := "post", field := "", idx := 0 }] else []) := by
+  rw [constructPlan_struct, beforePart_explicit cls hn]; rfl
 
 /-- enabled and nothing fails ⇒ *all* validators of *all* fields fire on construction and in `validate()` -/
 theorem C20_enabled_all_fire (c : Case) (hwf : wf c = true) (st st' : St) (hr : st.run = true)
     (hf : c.fault = none) (k : Nat) (cls : Cls) (hk : c.classes[k]? = some cls) :
-    (stepObs c st st' (.construct k)).events = convPlan cls.fields ++ validatorPlan cls.fields ∧
+    (stepObs c st st' (.construct k)).events = beforePart cls ++ validatorPlan cls.fields ++ afterPart cls ∧
     (stepObs c st st' (.validate k)).events = validatorPlan cls.fields ∧
     (stepObs c st st' (.construct k)).exc = none ∧ (stepObs c st st' (.validate k)).exc = none := by
   have h1 := C20_honoured_construct c hwf st st' k cls hk
   have h2 := C20_honoured_validate c st st' k cls hk
   rw [hf] at h1 h2
   simp only [hitsIds_none, cutIds_of_not_hits _ _ (hitsIds_none _), Bool.false_eq_true, if_false, hr,
-    constructPlan, validatePlan, if_true] at h1 h2
+    constructPlan_struct, validatePlan, if_true] at h1 h2
   exact ⟨h1.1, h2.1, h1.2, h2.2⟩
 
 /-- **C20_assign_validates_iff**: an assignment calls a validator iff validators are enabled, validation is
@@ -280,7 +329,7 @@ theorem C20_model_meets_spec (c : Case) (hwf : wf c = true) : spec c (model c) =
 /-! ## What `C20_restore` excludes: the context manager before ee5b683 -/
 
 def witnessCase : Case :=
-  { classes := [{ isDefine := false, clsOnSet := .unset, fields := [] }], fault := none, start := true,
+  { classes := [{ isDefine := false, clsOnSet := .unset, kwOnly := false, pre := .none, post := false, fields := [] }], fault := none, start := true,
     ops := [.enter, .enter, .exit, .exit] }
 
 /-- **C20_old_manager_violates** (regression witness for the repaired deviation F1; `stepStOld`/`modelOld` are
@@ -314,13 +363,13 @@ example : bal 0 [.enter, .setDisabled .F, .enter, .construct 0, .exitExc, .valid
     of `C20_honoured_*`, `C20_block_silences_validators`, `C20_model_meets_spec` are satisfiable -/
 def sampleCase : Case :=
   { classes := [
-      { isDefine := true, clsOnSet := .unset,
-        fields := [{ name := "x", validators := 2, conv := true, onSet := .unset }] },
-      { isDefine := true, clsOnSet := .unset,
-        fields := [{ name := "x", validators := 2, conv := true, onSet := .unset },
-                   { name := "y", validators := 1, conv := false, onSet := .chain [.custom, .validate] }] },
-      { isDefine := true, clsOnSet := .unset,
-        fields := [{ name := "x", validators := 1, conv := false, onSet := .unset }] }],
+      { isDefine := true, clsOnSet := .unset, kwOnly := false, pre := .noArgs, post := true,
+        fields := [{ name := "x", validators := 2, conv := true, onSet := .unset, factory := false }] },
+      { isDefine := true, clsOnSet := .unset, kwOnly := false, pre := .noArgs, post := true,
+        fields := [{ name := "x", validators := 2, conv := true, onSet := .unset, factory := false },
+                   { name := "y", validators := 1, conv := false, onSet := .chain [.custom, .validate], factory := false }] },
+      { isDefine := true, clsOnSet := .unset, kwOnly := false, pre := .noArgs, post := true,
+        fields := [{ name := "x", validators := 1, conv := false, onSet := .unset, factory := false }] }],
     fault := some { kind := "validator", field := "y", idx := 0 }, start := true,
     ops := [.validate 0, .validate 1, .validate 2, .enter, .enter, .setDisabled .F, .assign 1 1, .exitExc,
             .construct 1, .exit, .validate 1] }
@@ -329,10 +378,10 @@ example : wf sampleCase = true := by decide
 
 example : ((model sampleCase).steps.map (fun s => (s.run, s.events.length, s.exc))) =
     [(.t, 2, none), (.t, 3, some .user), (.t, 1, none), (.f, 0, none), (.f, 0, none), (.t, 0, none),
-     (.t, 2, some .user), (.f, 0, none), (.f, 1, none), (.t, 0, none), (.t, 3, some .user)] := by decide
+     (.t, 2, some .user), (.f, 0, none), (.f, 3, none), (.t, 0, none), (.t, 3, some .user)] := by decide
 
 example : ∃ cls f, (∃ e ∈ assignPlan cls true f, isValidator e = true) :=
-  ⟨{ isDefine := true, clsOnSet := .unset, fields := [] },
-   { name := "x", validators := 1, conv := false, onSet := .unset }, by decide⟩
+  ⟨{ isDefine := true, clsOnSet := .unset, kwOnly := false, pre := .none, post := false, fields := [] },
+   { name := "x", validators := 1, conv := false, onSet := .unset, factory := false }, by decide⟩
 
 end Attrs.C20
